@@ -89,8 +89,8 @@ func tableConcat(L *LState) int {
 func tableInsert(L *LState) int {
 	tbl := L.CheckTable(1)
 	nargs := L.GetTop()
-	if nargs == 1 {
-		L.RaiseError("wrong number of arguments")
+	if nargs == 1 || nargs > 3 {
+		L.RaiseError("wrong number of arguments to 'insert'")
 	}
 
 	if L.GetTop() == 2 {
